@@ -141,6 +141,79 @@ def rbox(rng, n, lo, hi, maxw):
     return out
 
 
+PTS = [0, 1, 255, 256, 32767, 32768, 65535, 65536, 65537, 70000, 131072, 1000000, 4000000]
+WIDTHS = [0, 0, 1, 2, 3, 255, 256, 65535, 65536, 65537, 70000, 200000]
+
+
+def wbox(rng, n, nonneg=False):
+    """domains of large magnitude / width around the powers of two where a narrower integer type would wrap"""
+    out = []
+    for _ in range(n):
+        a = rng.choice(PTS) + rng.randint(-2, 2)
+        if not nonneg and rng.random() < 0.3:
+            a = -a
+        if nonneg:
+            a = max(0, a)
+        out.append((a, a + rng.choice(WIDTHS)))
+    return out
+
+
+def prop_wide(alg, rng):
+    """an in-contract case with values far from zero and wide domains (still within NoOverflow: every linear sum stays
+    below 2^31); None for the algorithms whose contract ties the values to small ranges"""
+    if alg in ("affine_eq", "affine_geq", "affine_leq"):
+        n = rng.randint(1, 5)
+        cs = [rng.choice([-7, -3, -2, -1, 0, 1, 1, 2, 3, 5]) for _ in range(n)]
+        b = wbox(rng, n)
+        mid = sum(c * rng.randint(lo, hi) for c, (lo, hi) in zip(cs, b))
+        return cs + [mid + rng.choice([0, 0, 1, -1, 65536, -70000])], b
+    if alg == "alldifferent":
+        n = rng.randint(1, 6)
+        b = wbox(rng, n)
+        if rng.random() < 0.5:  # overlapping wide domains: shared anchors
+            a = rng.choice(PTS)
+            b = []
+            for _ in range(n):
+                lo = a + rng.randint(0, 2)
+                b.append((lo, lo + rng.choice(WIDTHS)))
+        return [], b
+    if alg == "count_eq":
+        n = rng.randint(1, 5)
+        b = wbox(rng, n)
+        return [b[0][0]], b + rbox(rng, 1, -1, n + 1, n + 1)
+    if alg == "exactly_eq":
+        n = rng.randint(1, 5)
+        b = wbox(rng, n)
+        return [b[0][0], rng.randint(0, n)], b
+    if alg == "element_iv":
+        m = rng.randint(1, 6)
+        vals = [rng.choice(PTS) * rng.choice([1, -1]) for _ in range(m)]
+        return vals, rbox(rng, 1, -2, m + 1, m + 2) + wbox(rng, 1)
+    if alg == "element_lic":
+        m = rng.randint(1, 5)
+        b = wbox(rng, m)
+        return [b[0][0] + rng.randint(0, 1)], b + rbox(rng, 1, -2, m + 1, m + 2)
+    if alg == "element_liv":
+        m = rng.randint(1, 5)
+        b = wbox(rng, m)
+        return [], b + rbox(rng, 1, -2, m + 1, m + 2) + [(b[0][0] - rng.randint(0, 2), b[0][1] + rng.randint(0, 70000))]
+    if alg in ("max_eq", "max_leq", "min_eq", "min_geq"):
+        n = rng.randint(2, 6)
+        return [], wbox(rng, n)
+    if alg == "lexicographic_leq":
+        n = rng.randint(1, 4)
+        return [], wbox(rng, 2 * n)
+    if alg == "relation":
+        n = rng.randint(1, 3)
+        b = wbox(rng, n)
+        rows = [[rng.randint(lo, min(hi, lo + 3)) for lo, hi in b] for _ in range(rng.randint(1, 4))]
+        rows.append([lo - 1 for lo, hi in b])
+        return [x for r in rows for x in r], b
+    if alg == "dummy":
+        return [], wbox(rng, rng.randint(1, 4))
+    return None
+
+
 def prop_random(alg, rng):
     """a wider random in-contract case"""
     if alg == "and":
